@@ -1,4 +1,5 @@
 import Eliot.Properties.C04
+import Eliot.Properties.C04Place
 #print axioms Sys.C04.execS_good
 #print axioms Sys.C04.execB_good
 #print axioms Sys.C04.exec_restores_ctx
@@ -7,3 +8,11 @@ import Eliot.Properties.C04
 #print axioms Sys.C04.probe_in_body_sees_action
 #print axioms Sys.C04.start_task_fresh
 #print axioms Sys.C04.contextless_msg_own_task
+#print axioms Sys.C04.log_untyped_in_action
+#print axioms Sys.C04.log_typed_in_action
+#print axioms Sys.C04.child_of_current
+#print axioms Sys.C04.body_statement_context
+#print axioms Sys.C04.block_body_world
+#print axioms Sys.C04.execB_append
+#print axioms Sys.C04.logged_in_block_is_direct_item
+#print axioms Sys.C04.started_in_block_is_child
